@@ -397,8 +397,31 @@ func genC08(r *RNG, avoid bool) *SrvPlan {
 		return next
 	}
 	l := Lane{Name: "walk", After: -1}
+	// a directed opening, now and then: fill every slot, have one more stream refused on an id that skips one, then
+	// come back to the skipped id (RFC 7540 5.1.1: the refused stream has used its id, and the ones below it)
+	var script []Op
+	if r.Intn(6) == 0 {
+		mcs = 2
+		p.Srv.MaxConcurrentStreams = 2
+		hd := func(id int, es bool) Op {
+			return Op{Kind: "headers", Pad: -1, TableSize: -1, StreamRef: id, EndStream: es,
+				Fields: []HF{{":method", "POST"}, {":scheme", "https"}, {":path", fmt.Sprintf("/s/%d", id)}, {":authority", "example.com"}, {"x-rid", fmt.Sprint(id)}}}
+		}
+		script = []Op{hd(1, r.Intn(2) == 0), hd(3, r.Intn(2) == 0), hd(7, true)}
+		for k := r.Intn(3); k > 0; k-- {
+			script = append(script, Op{Kind: Pick(r, "wupd", "priority"), Pad: -1, TableSize: -1, StreamRef: Pick(r, 1, 3), Incr: 10, PrioDep: 0})
+		}
+		script = append(script, hd(5, true))
+		next = 9
+		n = len(script) + r.Intn(4)
+	}
 	for i := 0; i < n; i++ {
 		id := pickID()
+		if i < len(script) {
+			used = append(used, script[i].StreamRef)
+			l.Ops = append(l.Ops, script[i])
+			continue
+		}
 		op := Op{Pad: -1, TableSize: -1, StreamRef: id}
 		switch r.Intn(14) {
 		case 0, 1, 2, 3:
@@ -454,6 +477,23 @@ func genC08(r *RNG, avoid bool) *SrvPlan {
 			op.RawType = uint8(Pick(r, 10, 11, 200))
 			op.RawLen = r.Intn(20)
 		}
+		if r.Intn(4) == 0 {
+			// flag bits that mean nothing for this type of frame
+			var undefined []uint8
+			switch op.Kind {
+			case "headers", "trailers", "headers2":
+				undefined = []uint8{0x02, 0x10, 0x40, 0x80}
+			case "data":
+				undefined = []uint8{0x02, 0x04, 0x10, 0x20, 0x40, 0x80}
+			case "continuation":
+				undefined = []uint8{0x01, 0x01, 0x02, 0x08, 0x20}
+			case "rst", "wupd", "priority", "unknown":
+				undefined = []uint8{0x01, 0x01, 0x01, 0x04, 0x08, 0x20, 0x05}
+			}
+			if len(undefined) > 0 {
+				op.JunkFlags = undefined[r.Intn(len(undefined))]
+			}
+		}
 		used = append(used, id)
 		l.Ops = append(l.Ops, op)
 	}
@@ -468,6 +508,15 @@ func genC08(r *RNG, avoid bool) *SrvPlan {
 
 // c08Encode turns a walk op into wire bytes (through the peer's stateful HPACK encoder).
 func (w *SrvWorld) c08Encode(op *Op, idx int) []byte {
+	b := w.c08Encode0(op, idx)
+	if len(b) >= 9 && op.JunkFlags != 0 {
+		b[4] |= op.JunkFlags
+		w.Probes["undefined-flags"]++
+	}
+	return b
+}
+
+func (w *SrvWorld) c08Encode0(op *Op, idx int) []byte {
 	id := uint32(op.StreamRef)
 	switch op.Kind {
 	case "headers", "trailers", "headers2":
